@@ -91,6 +91,9 @@ inline void common_classes(const Spec& s, Outcome& o) {
         if (strchr(str, 'P')) {
             o.classes.push_back("virtual_ptr_param");
         }
+        if (m.defs.size() > 64) {
+            o.classes.push_back("method_with_65+_definitions");
+        }
     }
 }
 
@@ -124,7 +127,7 @@ Property make_spec_property(
             // simplest configuration
             bool portable = true;
             for (auto& m : c.spec.meths) {
-                portable = portable && m.key < 2;
+                portable = portable && m.key != 2;
             }
             if (portable) {
                 out.push_back(to_json(SpecCase{"chk_vec", c.spec}));
